@@ -198,6 +198,17 @@ Section Plumbing.
   Definition job_parents (s : jstate) : list jid := deps s.
 End Plumbing.
 
+(** ---- PythonJob.call(f, *args, **kwargs) ------------------------------------------------------------------ *)
+(** An argument is a plain value, a resource, or a list / tuple / dict (its values) of arguments.  [handle_args] visits
+    exactly the resources reachable through the containers, left to right, and runs on each the same bookkeeping as the
+    regex handler of a Bash command ([Mention]); then the call's own (fresh) result is registered the same way.
+    PythonResult.as_str / as_repr / as_json create a file of the PRODUCING job: [Mention producer view]. *)
+Inductive arg := AVal | ARes (r : rid) | ASeq (l : list arg).
+Fixpoint reach (a : arg) : list rid :=
+  match a with AVal => [] | ARes r => [r] | ASeq l => flat_map reach l end.
+Definition call_ops (j : jid) (args : list arg) (result : rid) : list op :=
+  map (Mention j) (flat_map reach args) ++ [Mention j result].
+
 (** ---- job directories ------------------------------------------------------------------------------------ *)
 (** Batch._unique_job_token with the fix: draw candidates until one is new, and RECORD it. *)
 Fixpoint first_new (used : list (list N)) (stream : list (list N)) : option (list N * list (list N)) :=
